@@ -11,7 +11,7 @@ SOURCES = ["mls-rs/src/group/secret_tree.rs", "mls-rs/src/group/ciphertext_proce
 
 def run(ctx):
     return generic.standard(
-        ctx, ["MlsVerif.Props.C05"], ["c05"], "c13", "c05", SOURCES,
+        ctx, ["MlsVerif.Props.C05", "MlsVerif.Props.GenTables"], ["c05"], "c13", "c05", SOURCES,
         rule="(a) stateful secret-tree scripts (next / get at generation / replay of a used generation / window boundary "
              "gen+1023..gen+1025 / encode-decode of the tree), one row per request, compared with the model; (b) real groups of 2-4 "
              "members, 3-40 messages per sender (one run with 1030 from one sender), per-receiver random permutation with duplicates "
